@@ -46,6 +46,8 @@ func main() {
 		replayKeys(os.Args[2:])
 	case "catalogue":
 		runCatalogue()
+	case "pd":
+		runPD(seed, tier)
 	case "e2e":
 		runE2E(seed, tier)
 	case "dump":
